@@ -357,6 +357,7 @@ func driver(seed uint64, n int, outV, outJSON string, _ []string) {
 			byHash[b.hash] = i
 		}
 		content := map[string][]byte{} // what each (key) should hold after its last accepted upload / fetch
+		contentCid := map[string]int64{} // ... and the content identity the model knows it by
 
 		cfg := fmt.Sprintf("(mkCfg %s %s %s %s)", CB(zstdMode), CZ(maxBlob), CZ(maxProxy), CB(withProxy))
 		text := []string{fmt.Sprintf("mode=%s max=%d hard=%d maxblob=%d maxproxy=%d proxy=%v", mode, max, hard, maxBlob, maxProxy, withProxy)}
@@ -467,6 +468,7 @@ func driver(seed uint64, n int, outV, outJSON string, _ []string) {
 						seenRandom[rnd] = true
 					}
 					content[key] = data
+					contentCid[key] = int64(bi)
 					rep.Count("put.ok")
 					// C01 oracle
 					if int64(len(data)) != size || stErr || (kind == cache.CAS && !hashOK) {
@@ -630,11 +632,7 @@ func driver(seed uint64, n int, outV, outJSON string, _ []string) {
 						cid, want = int64(byHash[hash]), blobs[byHash[hash]].data
 					} else if cdata, ok := content[key]; ok {
 						want = cdata
-						for j, bb := range blobs {
-							if bytes.Equal(bb.data, cdata) {
-								cid = int64(j)
-							}
-						}
+						cid = contentCid[key]
 					}
 					flen := int64(0)
 					if it, ok := lookup(after, key); ok {
@@ -648,6 +646,7 @@ func driver(seed uint64, n int, outV, outJSON string, _ []string) {
 							seenRandom[rnd] = true
 						}
 						content[key] = blobs[bi].data
+						contentCid[key] = int64(bi)
 						want = blobs[bi].data
 						cid = int64(bi)
 						rep.Count("get.hit-from-backend")
